@@ -131,6 +131,39 @@ pub fn scope_escape() -> Vec<Ill> {
   out
 }
 
+/// A type argument that does not satisfy the bound of its type parameter - inferred, explicit, in
+/// an annotation, in a super-type list, forwarded from a differently bounded parameter, with a
+/// class of the same name but other type arguments as the bound.
+pub fn bounds() -> Vec<Ill> {
+  let prelude = "interface Cmp<T> { method cmp(o: T): int }\nclass IntBox(val v: int) : Cmp<IntBox> { method cmp(o: IntBox): int = this.v - o.v }\nclass Wrong(val v: int) : Cmp<IntBox> { method cmp(o: IntBox): int = 0 }\nclass Plain(val v: int) {}\nclass Box<T>(val v: T) {}\nclass Sorted<T: Cmp<T>>(val v: T) {}\ninterface Ord<T: Cmp<T>> {}\n";
+  let cases: [(&str, &str, &str); 16] = [
+    ("inferred argument without the interface", "", "let _ = Main.max(Plain.init(1), Plain.init(2));"),
+    ("explicit argument without the interface", "", "let _ = Main.max<Plain>(Plain.init(1), Plain.init(2));"),
+    ("argument implementing the interface at another type", "", "let _ = Main.max(Wrong.init(1), Wrong.init(2));"),
+    ("explicit argument implementing the interface at another type", "", "let _ = Main.max<Wrong>(Wrong.init(1), Wrong.init(2));"),
+    ("primitive int for an interface bound", "", "let _ = Main.max(1, 2);"),
+    ("Str for an interface bound", "", "let _ = Main.max(\"a\", \"b\");"),
+    ("function type for an interface bound", "", "let _ = Main.max((x: int) -> x, (x: int) -> x);"),
+    ("class bound with other type arguments", "", "let _ = Main.unbox(Box.init(\"s\"));"),
+    ("class bound with another class", "", "let _ = Main.unbox(Plain.init(1));"),
+    ("forwarding a parameter bounded at another type", "  function <U: Cmp<IntBox>> fwd(u: U): U = Main.max(u, u)\n", "let _ = 1;"),
+    ("forwarding an unbounded parameter", "  function <U> fwd(u: U): U = Main.max(u, u)\n", "let _ = 1;"),
+    ("annotation of a local", "", "let _: Box<Sorted<Plain>> = Main.never();"),
+    ("annotation of a parameter", "  function take(s: Sorted<Plain>): int = 1\n", "let _ = 1;"),
+    ("inferred class type argument", "", "let _ = Sorted.init(Plain.init(1));"),
+    ("explicit class type argument", "", "let _ = Sorted.init<Wrong>(Wrong.init(1));"),
+    ("super-type list", "}\nclass Impl : Ord<Plain> {\n", "let _ = 1;"),
+  ];
+  let mut out = vec![];
+  for (what, extra_member, stmt) in cases {
+    let text = format!(
+      "{prelude}class Main {{\n  function <T: Cmp<T>> max(a: T, b: T): T = if a.cmp(b) >= 0 {{ a }} else {{ b }}\n  function <T: Box<int>> unbox(t: T): int = 1\n  function <T> never(): T = Main.never()\n{extra_member}  function main(): unit = {{\n    {stmt}\n  }}\n}}\n"
+    );
+    out.push(Ill { kind: "bound-violation", what: what.to_string(), modules: vec![("Main".into(), text)], target: "Main".into() });
+  }
+  out
+}
+
 pub struct ArityCase {
   pub what: String,
   pub text: String,
